@@ -1,2 +1,86 @@
-(* C01 — placeholder until Refine.v lands: no theorem yet *)
-From HC Require Import Base.
+(* C01 — log contents equal an append-only list model (pinned statements of the PROVED COMPONENTS; proofs
+   in StorageFacts.v, OffsetFacts.v, TreeRef.v, BitfieldFacts.v, CoreFacts.v).
+   The full refinement statement (every history over append / batch / clear / get / has / info / reopen
+   observes exactly the list model) is NOT proved as one theorem; what is proved are the facts it rests on:
+   (1) storage: a read returns what was written there, writes elsewhere do not disturb it, writing at the end
+       appends, delete zero-fills or truncates as random-access-memory does, shrink-then-grow exposes zeros;
+   (2) the block data of an append is written at offset = byte length and the oplog entry after it, the flush
+       group after that (journal order);
+   (3) the tree built by any batching of appends is the reference tree, whose node sizes are the sums of the
+       block sizes they span (C05), and the byte-offset walk over a tree with such sizes returns the sum of the
+       sizes of the roots and leaves strictly to the left of the block = the prefix sum of the block sizes;
+   (4) has(i) after any sequence of set/clear updates is the range semantics (C08); clear never sends events
+       and get of a missing block returns None without side effect (C13).
+   The composition across flush / reopen / replay is decided on every run by tools/c01.py: corpus,
+   bounded-exhaustive and random histories with reopen after arbitrary prefixes and a core crossing 8192 and
+   32768 blocks, judged by the list-model oracle and compared operation by operation with the Coq model. *)
+From HC Require Import Base NMap Codec Crypto FlatTree Storage Bitfield Oplog Merkle Core.
+From HC Require Import StorageFacts OffsetFacts TreeRef CoreFacts.
+
+Theorem C01_read_after_write : forall f off data,
+  f_read (f_write f off data) off (len data) = Some data.
+Proof. exact f_read_write_same. Qed.
+
+Theorem C01_write_elsewhere_preserves : forall f off data off' n,
+  off' + n <= f_len f -> (off' + n <= off \/ off + len data <= off') ->
+  f_read (f_write f off data) off' n = f_read f off' n.
+Proof. exact f_read_write_other. Qed.
+
+Theorem C01_write_at_end_appends : forall f data,
+  f_content (f_write f (f_len f) data) = f_content f ++ data.
+Proof. exact f_content_write_append. Qed.
+
+Theorem C01_delete_semantics : forall f off n,
+  (f_del f off n = None <-> f_len f < off) /\
+  (forall f', f_del f off n = Some f' ->
+     (n = 0 -> feq f' f) /\
+     (n <> 0 -> f_len f <= off + n -> feq f' (f_truncate f off)) /\
+     (n <> 0 -> off + n < f_len f ->
+        f_len f' = f_len f /\
+        (forall i, off <= i -> i < off + n -> f_byte f' i = 0) /\
+        (forall i, i < off \/ off + n <= i -> f_byte f' i = f_byte f i))).
+Proof. exact f_del_spec. Qed.
+
+Theorem C01_append_journal_order : forall cr f batch c w c' w' x,
+  core_append cr f batch c w = (c', w', Ok x) -> batch <> [] ->
+  exists delta fr fl,
+    w_journal w' = rev delta ++ w_journal w /\
+    delta = SW Data (t_byte_length (c_tree c)) (concat batch)
+            :: SW Oplog (ENTRIES_OFFSET + ol_entries_bytes (c_oplog c)) fr :: fl /\
+    (fl = [] \/ flush_shape fl).
+Proof. exact append_journal_order. Qed.
+
+Theorem C01_byte_offset_is_left_sum : forall t tf sz pre r post index head off,
+  let d := N.to_nat (ft_depth (n_index r)) in
+  skipped pre head index ->
+  heads pre head = span_lo d (it_new (n_index r)) ->
+  (d < CLIMB)%nat ->
+  index mod 2 = 0 ->
+  heads pre head <= index ->
+  index < next_head (heads pre head) r ->
+  lookups_ok t tf sz d (it_new (n_index r)) ->
+  offset_roots t tf (pre ++ r :: post) index head off =
+  Ok (off + sumN (map n_length pre) + left_sum sz d (it_new (n_index r)) index).
+Proof. exact offset_roots_spec. Qed.
+
+Theorem C01_left_sum_is_leaf_prefix : forall sz A B,
+  sizes_consistent sz A B ->
+  forall d it index,
+  shaped d it -> A + p2 d <= it_index it + 1 -> it_index it + p2 d <= B + 1 ->
+  index mod 2 = 0 -> in_span d it index ->
+  left_sum sz d it index = leaf_sum sz (span_lo d it) (N.to_nat ((index - span_lo d it) / 2)).
+Proof. exact left_sum_leaf_sum. Qed.
+
+Theorem C01_node_sizes_are_block_sums : forall cr blocks d o,
+  n_length (ref_node cr blocks d o) = ref_size blocks d o /\
+  prefix_size blocks (o * 2 ^ N.of_nat d) + ref_size blocks d o = prefix_size blocks ((o + 1) * 2 ^ N.of_nat d).
+Proof. exact ref_node_size. Qed.
+
+Print Assumptions C01_read_after_write.
+Print Assumptions C01_write_elsewhere_preserves.
+Print Assumptions C01_write_at_end_appends.
+Print Assumptions C01_delete_semantics.
+Print Assumptions C01_append_journal_order.
+Print Assumptions C01_byte_offset_is_left_sum.
+Print Assumptions C01_left_sum_is_leaf_prefix.
+Print Assumptions C01_node_sizes_are_block_sums.
